@@ -79,5 +79,7 @@ def run(res, tier, seed, replay):
     if O["misc"].get("ASYNC_UNCHECKED_FAKE") != "sig": res.violation("async: a checked target paired with an unchecked value was not refused", {}, O["misc"].get("ASYNC_UNCHECKED_FAKE"))
     res.extra["lifetime_only_pairs_logged_not_judged"] = lifetime_pairs[:8]
     res.cov["evaluations"] += cells; res.cov["traces_validated_against_impl"] += cells; res.cov["distinct_nontrivial"] += len(distinct)
-    res.cov["samples"] += [dict(target=fam[0]["rust"], fake=fam[6]["rust"], outcome=O["rows"]["func"]["base"][6]), dict(type=fam[24]["rust"], compact=fam[24]["compact"])]
+    ix = {m["name"]: i for i, m in enumerate(fam)}
+    res.cov["samples"] += [dict(target=byname["base"]["rust"], fake=byname["p2_mut"]["rust"], outcome=O["rows"]["func"]["base"][ix["p2_mut"]]), dict(type=byname["ret_fnbool"]["rust"], compact=byname["ret_fnbool"]["compact"]),
+                           dict(target=byname["p2_wire"]["rust"], fake=byname["p2_disk"]["rust"], outcome=O["rows"]["func"]["p2_wire"][ix["p2_disk"]])]
     if corr: res.broke(f"correspondence: rustc's type_name vs the Coq printer: {len(corr)} differences", json.dumps(corr[:6]))
